@@ -795,3 +795,232 @@ def t5(facts, tier):
                      f"{words * elem_bits} bits are allocated: set_len claims more bits than the storage holds")
         else:
             yield ob(["C06"], "T5", key, "pass", where(f), f"accepted bit count <= allocated bits for all {len(samples)} sampled byte counts")
+
+
+# ---------------------------------------------------------------------------------------------
+# T6: initialisation typestate of element-wise filled `[MaybeUninit<T>; N]` buffers in the readers
+
+_MU = "core::mem::maybe_uninit::MaybeUninit"
+
+
+def _derives_from(n, names):
+    """does the expression mention one of the variables in `names`?"""
+    return any(y.get("k") == "Var" and y.get("v") in names for y in walk(n))
+
+
+def _range_of(n):
+    """('excl'|'incl', start, end) of a range constructor expression, else None"""
+    n = peel_block(peel(n))
+    if n.get("k") == "Adt" and n.get("adt", n.get("ty", "")).split("<")[0].endswith("ops::range::Range"):
+        fs = {x["name"] if "name" in x else x.get("f"): x["e"] for x in n["fields"]}
+        return ("excl", fs.get("start"), fs.get("end"))
+    if n.get("k") == "Adt" and "RangeTo" in n.get("adt", n.get("ty", "")) and "Inclusive" not in n.get("adt", n.get("ty", "")):
+        fs = {x["name"] if "name" in x else x.get("f"): x["e"] for x in n["fields"]}
+        return ("excl", None, fs.get("end"))
+    if n.get("k") == "Call" and (callee(n) or "").endswith("RangeInclusive::new") and len(n["args"]) == 2:
+        return ("incl", n["args"][0], n["args"][1])
+    return None
+
+
+def _is_zero(n):
+    if n is None:
+        return True
+    n = peel_block(peel(n))
+    return n.get("k") == "Lit" and n.get("int") == 0
+
+
+@rule("T6", ["C06"], floor=2, doc="typestate of every element-wise initialised `[MaybeUninit<T>; N]` buffer in a reader: the whole array is assumed "
+      "initialised only after a fill of all N slots that cannot be left early except by returning; a slot is assumed initialised "
+      "inside the fill loop (error clean-up) only for indices below the one being filled")
+def t6(facts, tier):
+    from ..flow import parent_map
+    for f in facts.fns_of_crate("savefile"):
+        body = f.get("body")
+        if not body:
+            continue
+        bufs = {}
+        for x in walk(body):
+            if x.get("k") == "LetS" and x["pat"].get("k") == "Bind" and x.get("init") is not None:
+                ty = x["pat"].get("ty") or x["init"].get("ty") or ""
+                m = re.match(r"\[" + re.escape(_MU) + r"<(.+)>; (\w+)\]$", ty)
+                if m:
+                    bufs[x["pat"]["v"]] = (x, m.group(1), m.group(2))
+        if not bufs:
+            continue
+        pm = parent_map(body)
+
+        def ancestors(n):
+            p = pm.get(id(n))
+            while p is not None:
+                yield p
+                p = pm.get(id(p))
+
+        def stmt_in(block, n):
+            """index of the statement of `block` that contains n"""
+            chain = [n] + list(ancestors(n))
+            for i, s in enumerate(block["stmts"]):
+                if any(s is c for c in chain):
+                    return i
+            return len(block["stmts"]) if block.get("e") is not None and any(block["e"] is c for c in chain) else None
+
+        order = sorted(bufs, key=lambda v: int(v.split("#")[1]) if "#" in v and v.split("#")[1].isdigit() else 0)
+        for D, (let, elem, N) in sorted(bufs.items()):
+            Dk = f"{D.split('#')[0]}.{order.index(D) + 1}"
+            # aliases: variables bound from expressions mentioning D (ptr, slice, loop variables over slices of D)
+            names = {D}
+            changed = True
+            while changed:
+                changed = False
+                for x in walk(body):
+                    if x.get("k") == "LetS" and x["pat"].get("k") == "Bind" and x.get("init") is not None \
+                            and x["pat"]["v"] not in names and _derives_from(x["init"], names):
+                        names.add(x["pat"]["v"]); changed = True
+                    if x.get("k") == "For" and x["pat"].get("k") == "Bind" and x["pat"]["v"] not in names \
+                            and _derives_from(x["iter"], names):
+                        names.add(x["pat"]["v"]); changed = True
+            # fills
+            fills = []   # (loop, assign, idxvar)
+            for x in walk(body):
+                if x.get("k") != "For" or x["pat"].get("k") != "Bind":
+                    continue
+                r = _range_of(x["iter"])
+                if not r or r[0] != "excl" or not _is_zero(r[1]):
+                    continue
+                e = peel_block(peel(r[2])) if r[2] is not None else {}
+                full = (e.get("k") == "ConstParam" and e.get("name", e.get("v")) == N) or \
+                       (e.get("k") == "Lit" and str(e.get("int")) == N)
+                for y in walk(x["body"]):
+                    if y.get("k") == "Assign":
+                        l = y["l"]
+                        while l.get("k") in ("Deref",):
+                            l = l["e"]
+                        if l.get("k") == "Index" and peel(l["e"]).get("k") == "Var" and peel(l["e"])["v"] == D \
+                                and peel(l["i"]).get("k") == "Var" and peel(l["i"])["v"] == x["pat"]["v"] \
+                                and (callee(peel_block(y["r"])) or "").startswith(_MU) and (callee(peel_block(y["r"])) or "").endswith("::new"):
+                            breaks = [b for b in walk(x["body"]) if b.get("k") == "Break"
+                                      and not any(a.get("k") in ("Loop", "For") and a is not x and any(a is c for c in ancestors(b))
+                                                  and any(x is c for c in ancestors(a)) for a in ancestors(b))]
+                            fills.append({"loop": x, "assign": y, "idx": x["pat"]["v"], "full": full, "breaks": breaks})
+            bulk = []
+            for x in walk(body):
+                if x.get("k") == "Call" and (callee(x) or "").endswith("Read::read_exact") and _derives_from(x, names):
+                    # the slice handed to read_exact covers size_of::<T>() * N bytes of the buffer
+                    lens = [y for y in walk(body) if y.get("k") == "Call" and (callee(y) or "").endswith("from_raw_parts_mut")
+                            and _derives_from(y, names)]
+                    ok = False
+                    for y in lens:
+                        ln = peel(y["args"][1])
+                        if ln.get("k") == "Var":
+                            lv = ln["v"]
+                            for z in walk(body):
+                                if z.get("k") == "LetS" and z["pat"].get("k") == "Bind" and z["pat"]["v"] == lv and z.get("init"):
+                                    ln = peel_block(peel(z["init"]))
+                        if ln.get("k") == "Bin" and ln["op"] == "Mul":
+                            a, b = peel_block(peel(ln["l"])), peel_block(peel(ln["r"]))
+                            for p, q in ((a, b), (b, a)):
+                                if p.get("k") == "Call" and (callee(p) or "").endswith("mem::size_of") and (p.get("targs") or [None])[0] == elem \
+                                        and q.get("k") == "ConstParam" and q.get("name", q.get("v")) == N:
+                                    ok = True
+                    bulk.append({"call": x, "full": ok})
+            nwhole = nelem = 0
+            for x in walk(body):
+                if x.get("k") != "Call" or x is peel_block(let["init"]) or any(x is y for y in walk(let["init"])):
+                    continue
+                c = callee(x) or ""
+                whole = (c.endswith("::read") and c.startswith("*")) or c.endswith("ptr::read") or c.endswith("intrinsics::transmute") \
+                    or c.endswith("mem::transmute_copy") or (c.startswith(_MU) and c.endswith("::assume_init"))
+                elemuse = c.startswith(_MU) and re.search(r"::assume_init(_drop|_read|_ref|_mut)?$", c) is not None
+                if not x.get("args") or not _derives_from(x["args"][0], names):
+                    continue
+                # element use: receiver is an indexed slot / loop variable over a sub-slice
+                recv = x["args"][0]
+                via_loop = None
+                for a in ancestors(x):
+                    if a.get("k") == "For" and a["pat"].get("k") == "Bind" and _derives_from(recv, {a["pat"]["v"]}) \
+                            and _derives_from(a["iter"], names - {a["pat"]["v"]}):
+                        via_loop = a
+                        break
+                idx_node = next((y for y in walk(recv) if y.get("k") == "Index" and peel(y["e"]).get("k") == "Var"
+                                 and peel(y["e"])["v"] == D), None)
+                if elemuse and (via_loop is not None or idx_node is not None):
+                    nelem += 1
+                    key = f"{f['id']}:{Dk}:slot-assumed-init#{nelem}"
+                    encl = [fl for fl in fills if any(fl["loop"] is a for a in ancestors(x))]
+                    if not encl:
+                        after = [fl for fl in fills if fl["full"] and not fl["breaks"]]
+                        st = "pass" if after else "undecided"
+                        yield ob(["C06"], "T6", key, st, where(f, x),
+                                 f"{f['id']}: slots of `{Dk}` assumed initialised outside the fill loop" +
+                                 ("" if after else " and no complete fill was recognised"))
+                        continue
+                    fl = encl[0]
+                    # was the slot of the current index already assigned on the way here?
+                    assigned = False
+                    for a in ancestors(x):
+                        if a.get("k") == "Block":
+                            i, j = stmt_in(a, x), stmt_in(a, fl["assign"])
+                            if i is not None and j is not None and j < i:
+                                assigned = True
+                        if a is fl["loop"]:
+                            break
+                    verdict = None
+                    if via_loop is not None:
+                        rr = None
+                        for y in walk(via_loop["iter"]):
+                            rr = rr or _range_of(y)
+                        if rr and _is_zero(rr[1]) and rr[2] is not None and peel(rr[2]).get("k") == "Var" and peel(rr[2])["v"] == fl["idx"]:
+                            verdict = True if rr[0] == "excl" or assigned else False
+                            what = f"slots 0..{'=' if rr[0]=='incl' else ''}{fl['idx'].split('#')[0]}"
+                        else:
+                            what = "a range that is not 0..idx"
+                    else:
+                        iv = peel(idx_node["i"])
+                        what = "an indexed slot"
+                        if iv.get("k") == "Var" and iv["v"] == fl["idx"]:
+                            verdict = bool(assigned)
+                            what = f"slot {fl['idx'].split('#')[0]}"
+                    if verdict is True:
+                        yield ob(["C06"], "T6", key, "pass", where(f, x), f"{f['id']}: {what} of `{Dk}` are initialised at this point")
+                    elif verdict is False:
+                        yield ob(["C06"], "T6", key, "violation", where(f, x),
+                                 f"{f['id']}: `{c.split('::')[-1]}` on {what} of `{Dk}` while slot `{fl['idx'].split('#')[0]}` has not been written in this "
+                                 f"iteration (the failing read is the one that would have produced it): an uninitialised `{elem}` is "
+                                 f"dropped/read when the input ends or is malformed at this element")
+                    else:
+                        yield ob(["C06"], "T6", key, "undecided", where(f, x),
+                                 f"{f['id']}: `{c.split('::')[-1]}` on {what} of `{Dk}` inside the fill loop: initialisation not established")
+                    continue
+                if whole and not elemuse or (elemuse and c.endswith("::assume_init")):
+                    if "MaybeUninit<u8>" in " ".join(x.get("targs") or []) and c.endswith("transmute"):
+                        continue    # byte view handed to read_exact (initialising use, not an assuming one)
+                    nwhole += 1
+                    key = f"{f['id']}:{Dk}:whole-array-assumed-init#{nwhole}"
+                    in_fill = any(any(fl["loop"] is a for a in ancestors(x)) for fl in fills)
+                    # a complete fill precedes the use in an enclosing block
+                    ok = False
+                    why = "no complete fill precedes it"
+                    for a in ancestors(x):
+                        if a.get("k") != "Block":
+                            continue
+                        i = stmt_in(a, x)
+                        for fl in fills:
+                            j = stmt_in(a, fl["loop"])
+                            if i is not None and j is not None and j < i:
+                                if fl["full"] and not fl["breaks"]:
+                                    ok = True
+                                else:
+                                    why = "the fill loop does not cover 0..N or can be left by `break`"
+                        for b in bulk:
+                            j = stmt_in(a, b["call"])
+                            if i is not None and j is not None and j < i:
+                                # the read_exact must be `?`-propagated: its parent is a Try
+                                par = pm.get(id(b["call"]))
+                                if b["full"] and par is not None and par.get("k") == "Try":
+                                    ok = True
+                                else:
+                                    why = "the bulk read does not cover size_of::<T>()*N bytes or its error is not propagated"
+                    if in_fill:
+                        ok, why = False, "it is inside the fill loop"
+                    yield ob(["C06"], "T6", key, "pass" if ok else "violation", where(f, x),
+                             f"{f['id']}: `{Dk}` is read as `[{elem}; {N}]` after a complete fill" if ok else
+                             f"{f['id']}: `{Dk}` is read as an initialised `[{elem}; {N}]` but {why}")
